@@ -244,6 +244,13 @@ def run(F, rep, tier):
     emission.rule_emission(F, rep, M)
     C04.bracketing_rule(F, G, rep, M)
     gecko_rule(F, rep)
+    # the trailing metadata element is part of the bytes: reader and writer grammars agree and the writer accepts what the reader produces
+    from props import C16
+    C16.reader_grammar(F, rep)
+    C16.writer_grammar(F, rep)
+    C16.writer_domain_rule(F, rep)
+    C16.toplevel_rule(F, rep)
+    C16.order_rule(F, rep)
     # positive controls: perturb the reader/writer agreement in memory
     import common
     M2 = copy.copy(M)
